@@ -4,6 +4,7 @@ CONSTANTS
   Procs = {1,2,3,4}
   Fixed = FALSE
   EnableFirst = TRUE
+  Mon = TRUE
 INVARIANTS LinStrict
 PROPERTY NoLostWakeup
 PROPERTY Progress
